@@ -199,6 +199,11 @@ func (f *FuncCtx) specIdent(name string, env *Env) (Val, bool) {
 				if v, ok := env.vars[o]; ok {
 					return v, true
 				}
+				if vo, isVar := o.(*types.Var); isVar && !vo.IsField() && o.Parent() != f.Pkg.Types.Scope() && o.Pos() < sc.pos && f.isParamOfAny(o) {
+					// a parameter whose binding was dropped at a join (bound to different function literals on the
+					// two branches): an unconstrained value of its type, as the code itself would read it
+					return f.objVal(o, env), true
+				}
 			}
 		}
 	}
@@ -774,4 +779,22 @@ func (f *FuncCtx) specPkgOf(pc *PkgContracts) *types.Package {
 		return p.Types
 	}
 	return f.Pkg.Types
+}
+
+// isParamOfAny: is o a parameter (or receiver) of the function being verified or of an enclosing frame?
+func (f *FuncCtx) isParamOfAny(o types.Object) bool {
+	for fr := f.fr; fr != nil; fr = fr.parent {
+		if fr.sig == nil {
+			continue
+		}
+		for i := 0; i < fr.sig.Params().Len(); i++ {
+			if fr.sig.Params().At(i) == o {
+				return true
+			}
+		}
+		if fr.sig.Recv() == o {
+			return true
+		}
+	}
+	return false
 }
